@@ -149,7 +149,12 @@ func verifC01Array(maxLen int) {
 	} else {
 		arr := verifArrayValue("v", maxLen, 1)
 		// known finding: uniqueness is decided on the JSON text, which tells 0 from -0
-		verifKnown("C01-uniqueItems-signed-zero", verifHasSignedZeroPair(arr))
+		// (the predicate is symbolic, so the flag is conjoined as a branch)
+		signedZeros := false
+		if s.UniqueItems && (s.Type == nil || s.Type.Is("array")) {
+			signedZeros = verifHasSignedZeroPair(arr)
+		}
+		verifKnown("C01-uniqueItems-signed-zero", signedZeros)
 		v = arr
 	}
 	err := verifVisit(s, v, 0)
